@@ -198,8 +198,7 @@ fn run_c23(ctx: &mut Ctx, rep: &mut Report) {
                             let g = got.get(&ca).cloned().unwrap_or_default();
                             let old = r1_ca.get(&ca).cloned().unwrap_or_default();
                             let new = r2_ca.get(&ca).cloned().unwrap_or_default();
-                            // a CA may also be absent when an ancestor's point is in its other version
-                            if g != old && g != new && !g.is_empty() { mixed.push(format!("CA {ca}: {} items, v1 has {}, v2 has {}", g.len(), old.len(), new.len())); }
+                            if g != old && g != new { mixed.push(format!("CA {ca}: {} items, v1 has {}, v2 has {}", g.len(), old.len(), new.len())); }
                         }
                         // ASPAs and router keys: each must come from the old or the new data set
                         let foreign: Vec<&String> = items.iter().filter(|i| !i.starts_with("roa ") && !r1.contains(*i) && !r2.contains(*i)).take(3).collect();
